@@ -242,7 +242,15 @@ def validate_runs(ctx, name, events_path, scheds, results, st, par):
     rows = lib.read_ndjson(events_path)
     by_id = {s["id"]: s for s in scheds}
     res_by_id = {r["id"]: r for r in results}
-    chunks = split_traces(rows, par)
+    # traces of ghost plans (known finding: many of them are rejected, every rejection costs a TLC run) get their own chunk so
+    # that they cannot use up the attempts of the others
+    ghost_rows, other_rows, cur = [], [], None
+    for r in rows:
+        if r["ev"] == "reset":
+            cur = ghost_rows if by_id.get(r["id"], {}).get("ghost") else other_rows
+        if cur is not None and r["ev"] != "end":
+            cur.append(r)
+    chunks = split_traces(other_rows, par) + ([ghost_rows] if ghost_rows else [])
     with concurrent.futures.ThreadPoolExecutor(max_workers=max(1, len(chunks))) as ex:
         futs = [ex.submit(validate_chunk, ctx, "%s-%d" % (name, i), ch, by_id, res_by_id, st) for i, ch in enumerate(chunks)]
         return sum(f.result() for f in futs)
